@@ -1324,10 +1324,40 @@ func OwnerLabelsComparedCompletely(p *core.Program, r *core.Report, rule string)
 	n := 0
 	bad := ""
 	w := facts.NewWalker(info)
-	w.OnBranch = func(b *ast.BranchStmt, states uint64, f facts.Formula) {
-		if len(w.Loops) > 0 && b.Tok == token.CONTINUE && bad == "" {
-			bad = fmt.Sprintf("the loop is continued at %s under %s", p.Pos(b.Pos()), facts.StripVersions(facts.String(f)))
+	// the comma-ok results of lookups in a label map
+	okOfLookup := map[types.Object]bool{}
+	ast.Inspect(fd.Decl.Body, func(nd ast.Node) bool {
+		if as, ok := nd.(*ast.AssignStmt); ok && len(as.Lhs) == 2 && len(as.Rhs) == 1 {
+			if ix, isIx := ast.Unparen(as.Rhs[0]).(*ast.IndexExpr); isIx {
+				if se, isSe := ast.Unparen(ix.X).(*ast.SelectorExpr); isSe && se.Sel.Name == "Labels" {
+					if id, isID := as.Lhs[1].(*ast.Ident); isID {
+						okOfLookup[info.ObjectOf(id)] = true
+					}
+				}
+			}
 		}
+		return true
+	})
+	w.OnBranch = func(b *ast.BranchStmt, states uint64, f facts.Formula) {
+		if len(w.Loops) == 0 || b.Tok != token.CONTINUE || bad != "" {
+			return
+		}
+		// a continue after the key was looked up in the other pod's labels (found, and equal) is the comparison itself;
+		// a continue decided by the key alone is a filter
+		for _, a := range facts.Atoms(f) {
+			if !facts.Entails(f, facts.Atom(a)) && !facts.Entails(f, facts.MkNot(facts.Atom(a))) {
+				continue
+			}
+			if strings.Contains(a, ".Labels[") {
+				return
+			}
+			for o := range okOfLookup {
+				if v, isVar := o.(*types.Var); isVar && strings.HasPrefix(a, "b:"+w.PathOfVar(v)) {
+					return
+				}
+			}
+		}
+		bad = fmt.Sprintf("the loop is continued at %s under %s", p.Pos(b.Pos()), facts.StripVersions(facts.String(f)))
 	}
 	w.WalkBody(fd.Decl.Body, nil)
 	ast.Inspect(fd.Decl.Body, func(nd ast.Node) bool {
@@ -1415,7 +1445,10 @@ func AdminCheckUnderSubjectSelection(p *core.Program, r *core.Report, rule strin
 	for _, fd := range p.FuncsIn(core.PkgEval) {
 		info := fd.Pkg.TypesInfo
 		// locals bound to a Selects call: object -> (peer text, direction constant)
-		type sel struct{ peer, dir string }
+		type sel struct {
+			peer, dir string
+			dirVar    *types.Var // the direction is a variable (isIngress): judged by its value on the path
+		}
 		selVars := map[types.Object]sel{}
 		ast.Inspect(fd.Decl.Body, func(nd ast.Node) bool {
 			as, ok := nd.(*ast.AssignStmt)
@@ -1430,8 +1463,12 @@ func AdminCheckUnderSubjectSelection(p *core.Program, r *core.Report, rule strin
 				return true
 			}
 			dir, _ := core.ConstString(info, c.Args[1])
+			var dirVar *types.Var
+			if did, isID := ast.Unparen(c.Args[1]).(*ast.Ident); isID && dir == "" {
+				dirVar, _ = info.ObjectOf(did).(*types.Var)
+			}
 			if id, isID := as.Lhs[0].(*ast.Ident); isID {
-				selVars[info.ObjectOf(id)] = sel{core.ExprStr(c.Args[0]), dir}
+				selVars[info.ObjectOf(id)] = sel{core.ExprStr(c.Args[0]), dir, dirVar}
 			}
 			return true
 		})
@@ -1461,8 +1498,21 @@ func AdminCheckUnderSubjectSelection(p *core.Program, r *core.Report, rule strin
 			n++
 			ok2 := false
 			for o, sv := range selVars {
-				if v, isVar := o.(*types.Var); isVar && sv.dir == want && facts.Entails(f, facts.Atom("b:"+w.PathOfVar(v))) {
+				v, isVar := o.(*types.Var)
+				if !isVar || !facts.Entails(f, facts.Atom("b:"+w.PathOfVar(v))) {
+					continue
+				}
+				if sv.dir == want {
 					ok2 = true
+				}
+				if sv.dirVar != nil {
+					da := facts.Formula(facts.Atom("b:" + w.PathOfVar(sv.dirVar)))
+					if !ingress {
+						da = facts.MkNot(da)
+					}
+					if facts.Entails(f, da) {
+						ok2 = true
+					}
 				}
 			}
 			if !ok2 {
